@@ -1,0 +1,59 @@
+//! Verification hook: build a scorer from explicit key pairs and query it.
+//! Compiled only with `--cfg vibrato_verif`.
+#![allow(missing_docs)]
+
+use crate::dictionary::connector::raw_connector::scorer::{ScorerBuilder, U31x8};
+use crate::num::U31;
+
+/// Builds a scorer from `(key1, key2, cost)` entries and returns, for each query
+/// `(keys1, keys2)`, the accumulated cost of the position-wise key pairs.
+///
+/// Keys must be at most `0x7fff_ffff`; `None` is returned otherwise.
+pub fn scorer_table(
+    entries: &[(u32, u32, i32)],
+    queries: &[(Vec<u32>, Vec<u32>)],
+) -> Option<Vec<i32>> {
+    let mut builder = ScorerBuilder::new();
+    for &(k1, k2, c) in entries {
+        builder.insert(U31::new(k1)?, U31::new(k2)?, c);
+    }
+    let scorer = builder.build();
+    let mut result = vec![];
+    for (k1s, k2s) in queries {
+        let k1s: Option<Vec<U31>> = k1s.iter().map(|&k| U31::new(k)).collect();
+        let k2s: Option<Vec<U31>> = k2s.iter().map(|&k| U31::new(k)).collect();
+        result.push(scorer.accumulate_cost(
+            &U31x8::to_simd_vec(&k1s?),
+            &U31x8::to_simd_vec(&k2s?),
+        ));
+    }
+    Some(result)
+}
+
+/// Encodes a scorer built from `entries`, decodes it again and answers the queries with the
+/// decoded instance (exercises the hand-written codec of `Scorer` and `U31x8`).
+pub fn scorer_roundtrip_table(
+    entries: &[(u32, u32, i32)],
+    queries: &[(Vec<u32>, Vec<u32>)],
+) -> Option<Vec<i32>> {
+    use crate::dictionary::connector::raw_connector::scorer::Scorer;
+    let mut builder = ScorerBuilder::new();
+    for &(k1, k2, c) in entries {
+        builder.insert(U31::new(k1)?, U31::new(k2)?, c);
+    }
+    let scorer = builder.build();
+    let config = crate::common::bincode_config();
+    let bytes = bincode::encode_to_vec(&scorer, config).ok()?;
+    let (scorer, _): (Scorer, usize) = bincode::decode_from_slice(&bytes, config).ok()?;
+    let mut result = vec![];
+    for (k1s, k2s) in queries {
+        let k1s: Option<Vec<U31>> = k1s.iter().map(|&k| U31::new(k)).collect();
+        let k2s: Option<Vec<U31>> = k2s.iter().map(|&k| U31::new(k)).collect();
+        let k1v = U31x8::to_simd_vec(&k1s?);
+        let k2v = U31x8::to_simd_vec(&k2s?);
+        let bytes1 = bincode::encode_to_vec(&k1v, config).ok()?;
+        let (k1v, _): (Vec<U31x8>, usize) = bincode::decode_from_slice(&bytes1, config).ok()?;
+        result.push(scorer.accumulate_cost(&k1v, &k2v));
+    }
+    Some(result)
+}
